@@ -204,10 +204,10 @@ package runtime
 //@   ensures !held(watchStateMutex)
 //@   ensures implies(result1 == nil, failedDuring == old(failedDuring)) && implies(result1 != nil, failedDuring) && implies(old(failedDuring), failedDuring)
 
-// cacheStrings is only called with the mutex held
+// cacheStrings writes the cache: it is only called with the mutex held exclusively
 //@ func cacheStrings [C14]
-//@   requires held(watchStateMutex)
+//@   requires xheld(watchStateMutex)
 //@   assume entry: watchModeCache != nil
 //@   modifies failedDuring
-//@   ensures held(watchStateMutex)
+//@   ensures xheld(watchStateMutex)
 //@   ensures implies(result1 == nil, failedDuring == old(failedDuring)) && implies(result1 != nil, failedDuring) && implies(old(failedDuring), failedDuring)
